@@ -151,7 +151,8 @@ class SDM():
                     if n == 0 and Array([0, 0, 0]) == floor_d:
                         continue
                     dk = self.vector_length(*dp)
-                    dddd = sdm_item.dist + 0.2
+                    # every image that is bonded to atom2 (and only those), not the ones near the shortest contact:
+                    dddd = sdm_item.dddd
                     if sdm_item.atom1.ishydrogen and sdm_item.atom2.ishydrogen:
                         dddd = 1.8
                     if (dk > 0.001) and (dddd >= dk):
